@@ -197,6 +197,11 @@ ItemProds(l) ==
     Pr("local_tn5", <<T("int"), T("("), T("*"), T("("), T("*"), U("d"), T(")"), T("("), T("void"), T(")"), T(")"), T("["), T("2"), T("]"), T("="), T("0")>> \o <<T(";")>>),
     Pr("local_tn6", <<T("int"), T("("), T("*"), T("const"), T("*"), U("d"), T(")"), T("["), T("2"), T("]"), T("="), T("0")>> \o <<T(";")>>),
     Pr("local_tn7", <<T("char"), T("("), T("*"), T("const"), U("d"), T("["), T("2"), T("]"), T(")"), T("["), T("3"), T("]"), T("="), T("{"), T("0"), T("}")>> \o <<T(";")>>),
+    \* which pointer level a qualifier sits on, made visible through pointer compatibility (gq, gr: globals of the prelude)
+    Pr("local_qchain1", <<T("int"), T("*"), T("const"), T("*"), T("*"), U("d"), T("="), T("gq"), T(";")>>),
+    Pr("local_qchain2", <<T("int"), T("*"), T("volatile"), T("*"), U("d"), T("="), T("gr"), T("("), T(")"), T(";")>>),
+    Pr("local_qchain3", <<T("int"), T("*"), T("const"), T("*"), U("d"), T("["), T("2"), T("]"), T("="), T("{"), T("gq"), T("["), T("0"), T("]"), T(","), T("gq"), T("["), T("1"), T("]"), T("}"), T(";"),
+                          T("gqq"), T("="), U("=d"), T(";")>>),
     Pr("local_sassert", <<T("_Static_assert"), T("("), T("sizeof"), T("("), T("int"), T(")"), T(">="), T("2"), T(","), T("\"m\""), T(")"), T(";")>>) }
 
 Alts(r) == CASE r = "R" -> RLeaves \cup RProds
